@@ -59,9 +59,12 @@ const (
 	bApply502                    // handler runs, the answer is replaced by 502 (gateway lost the upstream answer)
 	bApply504                    // handler runs, the answer is replaced by 504
 	nBeh
+	// bApplyHang is played only in the slow lane (it costs the client's whole timeout): the handler runs and no byte is
+	// ever answered; the front waits until the client has given up and closed the connection.
+	bApplyHang beh = nBeh
 )
 
-var behName = [nBeh]string{"deliver", "apply-then-close", "apply-then-reset", "apply+worker-then-close", "apply-then-truncated-answer",
+var behName = [nBeh + 1]string{nBeh: "apply-then-silence-until-the-client-gives-up", 0: "deliver", "apply-then-close", "apply-then-reset", "apply+worker-then-close", "apply-then-truncated-answer",
 	"close-before-handler", "429-not-applied", "503-not-applied", "apply-then-500", "apply-then-502", "apply-then-504"}
 
 const proxyMaxDepth = 3
@@ -211,6 +214,15 @@ func (f *proxyFront) ServeHTTP(w http.ResponseWriter, r *http.Request) {
 		if conn := hijack(); conn != nil {
 			conn.Close()
 		}
+	case bApplyHang:
+		run()
+		select {
+		case <-r.Context().Done(): // the client closed the connection (its timeout)
+		case <-time.After(30 * time.Second): // safety net only, not an expectation
+		}
+		if conn := hijack(); conn != nil {
+			conn.Close()
+		}
 	case bRefuse429:
 		answer(http.StatusTooManyRequests)
 	case bRefuse503:
@@ -269,9 +281,9 @@ func proxyAppDSL(backend string, port int) string {
 }
 
 func newProxyEnv(worker int, managed bool) (*proxyEnv, error) {
-	e := &proxyEnv{adminEnv: newAdminEnv(500+worker, "memory"), managed: managed, config: map[string]string{}}
+	// worker numbers (scratch directories) of this part: 500.. plain, 600.. managed, 700.. slow lane
+	e := &proxyEnv{managed: managed, config: map[string]string{}, adminEnv: newAdminEnv(worker, "memory")}
 	if managed {
-		e.adminEnv = newAdminEnv(600+worker, "memory")
 		e.adminEnv.dsl = proxyAppDSL
 	}
 	e.front = &proxyFront{sys: e.sys}
@@ -436,8 +448,9 @@ func behNames(s []beh) []string {
 
 type proxyCounters struct {
 	*adminCounters
+	byLabel map[string]int64
 	runs, faultRuns, forwarded, applied, success, failure, failApplied, failNotApplied, successAfterFault int64
-	retried, depthCapped, workerSteps, transient, pgRuns                                                   int64
+	retried, depthCapped, workerSteps, transient, pgRuns, managedRuns, managedPops                         int64
 }
 
 type proxyShared struct {
@@ -634,9 +647,9 @@ func (e *proxyEnv) runPop(s *proxyShared, pop []int, c *proxyCounters) bool {
 	}
 	for _, cs := range cases {
 		backends := proxyBackends[:1]
-		faults := (allFaults || e.managed) && cs.Expect != mustReject || faultCase(cs)
-		if faults && len(pop) == 2 && cs.Label != "padded" && cs.Label != "duplicate" {
-			backends = proxyBackends // the MCP-side backend dimension: two-message populations, transport-crossed selectors
+		faults := allFaults && cs.Expect != mustReject || faultCase(cs) || e.managed && cs.Label == "scoped"
+		if faults && len(pop) == 2 && !e.managed && (cs.Filter && cs.MOp.Filter.Limit > 0 || cs.Label == "hit" || cs.Label == "all") {
+			backends = proxyBackends // the MCP-side backend dimension: two-message populations, selectors with a limit / id hits
 		}
 	nextCase:
 		for _, backend := range backends {
@@ -710,6 +723,19 @@ func (e *proxyEnv) count(s *proxyShared, cs *mcpCase, backend string, script []b
 	if backend != proxyBackends[0] {
 		c.pgRuns++
 	}
+	flavour := "plain"
+	if e.managed {
+		c.managedRuns++
+		flavour = "managed:" + cs.Label
+		if faultFree(script) {
+			// what the undisturbed managed flavour answers per selector class (accepted / refused) is part of the evidence
+			k := fmt.Sprintf("mcp_proxy_managed_%s_%s", cs.Label, map[bool]string{false: "accepted", true: "refused"}[v.refused])
+			if v.changed {
+				k += "_and_changed"
+			}
+			c.byLabel[k]++
+		}
+	}
 	c.forwarded += int64(v.seen)
 	c.applied += int64(v.applied)
 	c.workerSteps += int64(v.wsteps)
@@ -741,7 +767,7 @@ func (e *proxyEnv) count(s *proxyShared, cs *mcpCase, backend string, script []b
 	if v.changed {
 		c.changed++
 	}
-	c.distinct[fmt.Sprintf("mcp-proxy:%s:%s:forwarded=%d:refused=%v:changed=%v", cs.Op.Tool, scriptName(script), v.seen, v.refused, v.changed)] = struct{}{}
+	c.distinct[fmt.Sprintf("mcp-proxy:%s:%s:%s:forwarded=%d:refused=%v:changed=%v", flavour, cs.Op.Tool, scriptName(script), v.seen, v.refused, v.changed)] = struct{}{}
 	if v.what == "" && v.changed && v.refused {
 		s.sample(cs, st.desc, backend, script, v)
 	}
@@ -783,6 +809,75 @@ func (s *proxyShared) sample(c *mcpCase, desc []string, backend string, script [
 		"transport": behNames(script), "forwarded": v.seen, "applied": v.applied, "tool_reported_failure": v.refused, "queue_changed": v.changed})
 }
 
+// slowCase: the selectors of the slow lane: per by-filter tool "limit 1, nothing else", per id tool "the first message".
+func slowCase(c *mcpCase) bool {
+	if c.Filter {
+		f := c.MOp.Filter
+		return c.Label == "plain" && f.Limit == 1 && !f.Preview && f.Route == "" && f.State == "" && f.Target == "" && f.Before == 0
+	}
+	return c.Label == "hit" && len(c.MOp.IDs) == 1 && c.MOp.IDs[0] == "m0"
+}
+
+// slowLane: the client's own timeout as a transport behaviour (handler runs, silence). One run costs the client's
+// timeout in wall time and no CPU, so every (population, tool) gets its own goroutine and environment and they all
+// wait side by side. A selector is played when the undisturbed run of it changed a message.
+func (s *proxyShared) slowLane(pops [][]int, wg *sync.WaitGroup) {
+	r := s.r
+	n := 0
+	for _, pop := range pops {
+		for _, cs := range interleaveTools(s.filter, s.byN[len(pop)]) {
+			if !slowCase(cs) {
+				continue
+			}
+			n++
+			wg.Add(1)
+			go func(id int, pop []int, cs *mcpCase) {
+				defer wg.Done()
+				e, err := newProxyEnv(700+id, false)
+				if err != nil {
+					r.Infra("c14 mcp-proxy slow lane: %v", err)
+					return
+				}
+				defer e.close()
+				c := &proxyCounters{adminCounters: newAdminCounters(), byLabel: map[string]int64{}}
+				st := &popState{pop: pop}
+				for _, script := range [][]beh{nil, {bApplyHang}} {
+					if why := e.rebuildPop(s, st); why != "" {
+						r.Infra("c14 mcp-proxy slow lane: %s", why)
+						return
+					}
+					st.desc = popDesc(st.w, s.ks, pop)
+					v, _, err := e.judge(st.w, cs, proxyBackends[0], script, st.pre)
+					if err != nil {
+						r.Infra("c14 mcp-proxy slow lane: population %v tool %s transport %s: %v", st.desc, cs.Op.Tool, scriptName(script), err)
+						return
+					}
+					e.count(s, cs, proxyBackends[0], script, v, c, st)
+					if v.what != "" {
+						e.report(s, st, cs, proxyBackends[0], script, v, c)
+						break
+					}
+					if !v.changed {
+						break // this selector changes nothing on this population: a replay could not show
+					}
+					if script != nil {
+						r.Add("mcp_proxy_slow_lane_runs", 1)
+						if v.refused {
+							r.Add("mcp_proxy_slow_lane_client_gave_up", 1)
+						}
+						if v.seen > 1 {
+							r.Add("mcp_proxy_slow_lane_runs_with_a_further_attempt_by_the_client", 1)
+						}
+					}
+				}
+				for k := range c.distinct {
+					r.Distinct(k)
+				}
+			}(n, pop, cs)
+		}
+	}
+}
+
 func mcpProxyPart(r *runner.Run) {
 	start := time.Now()
 	s := &proxyShared{r: r, ks: kinds([]string{"/r1", "/r2"}, []string{pullTarget}), filter: mcpFilterCases(), byN: map[int][]mcpCase{}, sampled: map[string]bool{}, fullPops: map[string]bool{},
@@ -808,6 +903,7 @@ func mcpProxyPart(r *runner.Run) {
 		{ki("/r1", qmodel.Canceled, 0), ki("/r2", qmodel.Canceled, 1)},
 		{ki("/r1", qmodel.Leased, 1), ki("/r2", qmodel.Dead, 0)},
 		{ki("/r2", qmodel.Dead, 1), ki("/r2", qmodel.Canceled, 1)},
+		{ki("/r2", qmodel.Queued, 0), ki("/r2", qmodel.Queued, 1)}, // two matching messages on the route that is labelled in the managed flavour
 	}
 	var pops [][]int
 	seen := map[string]bool{}
@@ -832,34 +928,67 @@ func mcpProxyPart(r *runner.Run) {
 			add(p, false)
 		}
 	}
+	s.scoped = proxyScopedCases()
+	type item struct {
+		pop     []int
+		managed bool
+	}
+	var items []item
+	for _, p := range pops {
+		items = append(items, item{p, false})
+		if len(p) <= 1 || s.fullPops[popKey(p)] || r.Quick() {
+			items = append(items, item{p, true}) // managed flavour: populations <= 1 and the fixed ones
+		}
+	}
 	workers := runner.Pick(r, 8, 10)
 	var next, done atomic.Int64
 	var wg sync.WaitGroup
+	s.slowLane(runner.Pick(r, [][]int{fixed[0], fixed[2], fixed[3]}, fixed), &wg)
 	for wi := 0; wi < workers; wi++ {
 		wg.Add(1)
 		go func(wi int) {
 			defer wg.Done()
-			e, err := newProxyEnv(wi)
-			if err != nil {
-				r.Infra("c14 mcp-proxy: %v", err)
-				return
-			}
-			defer e.close()
-			c := &proxyCounters{adminCounters: newAdminCounters()}
+			envs := map[bool]*proxyEnv{}
+			defer func() {
+				for _, e := range envs {
+					e.close()
+				}
+			}()
+			c := &proxyCounters{adminCounters: newAdminCounters(), byLabel: map[string]int64{}}
 			for {
 				i := int(next.Add(1)) - 1
-				if i >= len(pops) || s.budgetHit.Load() {
+				if i >= len(items) || s.budgetHit.Load() {
 					break
 				}
-				if !e.runPop(s, pops[i], c) {
+				e := envs[items[i].managed]
+				if e == nil {
+					var err error
+					if e, err = newProxyEnv(map[bool]int{false: 500, true: 600}[items[i].managed]+wi, items[i].managed); err != nil {
+						r.Infra("c14 mcp-proxy: %v", err)
+						return
+					}
+					envs[items[i].managed] = e
+				}
+				if !e.runPop(s, items[i].pop, c) {
 					break
 				}
 				if !s.budgetHit.Load() {
 					done.Add(1)
+					if items[i].managed {
+						c.managedPops++
+					}
 				}
+			}
+			var listens, boots int64
+			for _, e := range envs {
+				listens += e.listens
+				boots += e.boots
 			}
 			for k := range c.distinct {
 				r.Distinct(k)
+			}
+			for k, n := range c.byLabel {
+				r.Add(k, n)
 			}
 			r.Add("mcp_proxy_runs", c.runs)
 			r.Add("mcp_proxy_runs_with_disturbed_transport", c.faultRuns)
@@ -880,13 +1009,15 @@ func mcpProxyPart(r *runner.Run) {
 			r.Add("mcp_proxy_must_accept_runs", c.mustOK)
 			r.Add("mcp_proxy_either_runs", c.either)
 			r.Add("mcp_proxy_must_reject_runs", c.mustReject)
-			r.Add("mcp_proxy_front_listeners", e.listens)
-			r.Add("mcp_proxy_boots", e.boots)
+			r.Add("mcp_proxy_front_listeners", listens)
+			r.Add("mcp_proxy_boots", boots)
+			r.Add("mcp_proxy_runs_managed_flavour", c.managedRuns)
+			r.Add("mcp_proxy_populations_managed_flavour", c.managedPops)
 		}(wi)
 	}
 	wg.Wait()
 	if s.budgetHit.Load() {
-		r.NotExhaustive(fmt.Sprintf("mcp-proxy part time budget: %d of %d populations finished", done.Load(), len(pops)))
+		r.NotExhaustive(fmt.Sprintf("mcp-proxy part time budget: %d of %d (population, flavour) items finished", done.Load(), len(items)))
 	}
 	r.Add("mcp_proxy_populations", done.Load())
 	r.Set("mcp_proxy_wall_s", time.Since(start).Seconds())
@@ -901,15 +1032,16 @@ func mcpProxyPart(r *runner.Run) {
 	r.Set("mcp_proxy_selectors_per_population", len(s.filter)+len(s.byN[2]))
 	r.Set("mcp_proxy_selectors_crossed_with_transport", nFault)
 	r.Set("mcp_proxy_transport_alphabet", behName[:])
-	r.Set("mcp_proxy_rule", fmt.Sprintf("mcp.NewServer(...).Serve (framed JSON-RPC, role operate, mutations enabled) in admin-proxy mode (MCP-side route backend memory; postgres on the transport-crossed selectors of two-message populations) -> real loopback TCP -> front -> production Admin handler (app.VerifBoot) over the qsys MemoryStore; "+
-		"populations: empty, every single message over route{/r1,/r2} x state(5) x received_at{T0,T1}, six fixed two-message populations%s; "+
+	r.Set("mcp_proxy_rule", fmt.Sprintf("mcp.NewServer(...).Serve (framed JSON-RPC, role operate, mutations enabled) in admin-proxy mode (MCP-side route backend memory; also postgres for the by-filter selectors with a limit and the id hits on two-message populations) -> real loopback TCP -> front -> production Admin handler (app.VerifBoot) over the qsys MemoryStore; "+
+		"populations: empty, every single message over route{/r1,/r2} x state(5) x received_at{T0,T1}, seven fixed two-message populations%s; "+
+		"managed flavour (route /r2 labelled application/endpoint_name in the application and in the MCP configuration, populations <= 1 and the fixed ones): %d by-filter calls with application+endpoint_name x state x limit{-,1} x preview (forwarded to the endpoint-scoped path), crossed with the transport, and route-path / unscoped selectors on the undisturbed transport; "+
 		"undisturbed transport x the whole selector set of the direct MCP part (%d by-filter calls, id lists, documented refusals); "+
-		"transport behaviour tree per forwarded request over %d behaviours, expanded at every position the client really reached (depth <= %d), x %s; "+
+		"transport behaviour tree per forwarded request over %d behaviours, expanded at every position the client really reached (depth <= %d), x %s; slow lane: the client's own timeout (handler ran, silence) x tool x {limit 1 | first id} x fixed two-message populations; "+
 		"oracle: queue afterwards = queue before (no request applied by the Admin handler) or = reference(one application)[+ the worker step the transport made], full private-state snapshot; reported success => exactly the counts of that one application; "+
 		"undisturbed transport + well-formed call => accepted; non-trivial = distinct (tool, transport script, forwarded requests, reported failure, queue changed)",
-		runner.Pick(r, "", ", every multiset of two messages (thorough)"), len(s.filter), int(nBeh), proxyMaxDepth,
+		runner.Pick(r, "", ", every multiset of two messages (thorough)"), len(s.scoped), len(s.filter), int(nBeh), proxyMaxDepth,
 		runner.Pick(r, fmt.Sprintf("the %d selectors of faultCase (by-filter: route x state defined for the operation x limit{-,1,2} x preview; ids: miss, hit, duplicate, padded, reversed, all)", nFault),
 			"every selector that is not a documented refusal on populations <= 1 and the fixed ones, the faultCase subset on the other two-message populations")))
-	r.Assume("mcp-proxy: a client timeout (5 s without an answer) is not played; for the client it is a transport error like a closed or reset connection, which are. The proxied publish tool and its compensating cancel are not queue-selection mutations and are not driven")
-	r.Assume("mcp-proxy: endpoint-scoped forwarding (application/endpoint_name selectors -> /applications/{app}/endpoints/{ep}/messages/*_by_filter) is not driven: both routes are unlabelled")
+	r.Assume("mcp-proxy: the client's timeout (handler ran, no answer until the client gives up) costs the timeout in wall time per run and is played in a slow lane only: per tool one selector (by-filter: limit 1; ids: the first message) on the fixed two-message populations where that selector changes a message, first request only. The proxied publish tool and its compensating cancel are not queue-selection mutations and are not driven")
+	r.Assume("mcp-proxy, managed flavour: docs/admin-api.md rejects route selectors that resolve to a labelled route and unscoped selectors while labelled routes exist; these calls and a path selector for the unlabelled route are judged 'refused and nothing changed, or obeying the model'; id tools are not driven in the managed flavour")
 }
